@@ -469,6 +469,12 @@ pub fn gen_c10(rng: &mut Rng, d: &mut Dist, idx: u64) -> Vec<String> {
         out.push(format!("OP c fetch_group_topic_offset {} {}", h("grp"), h("big")));
         return out;
     }
+    // fetch responses (high watermarks and messages; plain, compressed and nested sets, several topics x partitions
+    // x brokers): the message sets are part of "the content the broker sent"
+    if idx % 3 == 1 {
+        bump(d, "fetch-responses");
+        return gen_c02(rng, d, idx);
+    }
     let maxp = *rng.pick(&[1u64, 3, 5]);
     let mut cl = Cluster::random_wild(rng, maxp, true);
     // −1 as a node id would read as "no leader": avoid it (documented protocol meaning)
@@ -2301,8 +2307,138 @@ pub fn replies_of(lines: &[String]) -> Vec<(usize, i16, Vec<u8>)> {
 /// boundary values, bit flips, truncation (consistent and mid-stream), random bytes, replies inconsistent with the
 /// request (other names, ids, duplicated / dropped / swapped elements, counts), hostile compressed payloads, deep nesting.
 /// Groups of 48 consecutive cases share one base history; even cases walk the (reply, field, value) grid systematically.
+/// C13: well-formed replies describing a cluster of an unusual shape (topics whose partitions are all leaderless or led by a
+/// node the reply does not list, topics without partitions, a coordinator that is no listed broker), and every layer's
+/// operations on them: no reply of this kind may do more than make a call fail
+pub fn gen_c13_shapes(rng: &mut Rng, d: &mut Dist) -> Vec<String> {
+    bump(d, "unusual-cluster-shape");
+    let nb = 1 + rng.below(2) as i32;
+    let mut out: Vec<String> = (1..=nb).map(|i| format!("BROKER {} {} 9092", i, h(&format!("b{}", i)))).collect();
+    let mut names: Vec<(String, usize)> = Vec::new();
+    let kinds = rng.below(8) + 1;
+    if kinds & 1 != 0 {
+        let n = *rng.pick(&[1usize, 2, 5]);
+        bump(d, "shape-all-leaderless");
+        out.push(format!("TOPIC {} {}", h("dark"), n));
+        names.push(("dark".into(), n));
+    }
+    if kinds & 2 != 0 {
+        bump(d, "shape-no-partitions");
+        out.push(format!("TOPIC {} 0", h("void")));
+        names.push(("void".into(), 0));
+    }
+    if kinds & 4 != 0 {
+        let n = *rng.pick(&[1usize, 3]);
+        bump(d, "shape-leader-not-listed");
+        out.push(format!("TOPIC {} {}", h("lost"), n));
+        for p in 0..n {
+            out.push(format!("LEADER {} {} 99", h("lost"), p));
+        }
+        names.push(("lost".into(), n));
+    }
+    if kinds & 8 != 0 || rng.chance(1, 2) {
+        let n = 1 + rng.below(3) as usize;
+        out.push(format!("TOPIC {} {}", h("fine"), n));
+        for p in 0..n {
+            if rng.chance(3, 4) {
+                out.push(format!("LEADER {} {} {}", h("fine"), p, 1 + rng.below(nb as u64)));
+            }
+        }
+        names.push(("fine".into(), n));
+    }
+    out.push(format!("COORD {}", if rng.chance(1, 4) { 99 } else { 1 }));
+    let boot = h("b1:9092");
+    // every layer on top of one client with a small retry limit and no back-off
+    out.push(format!("OP client_new {}", boot));
+    out.push("OP c set retry_backoff_ms 0".into());
+    out.push(format!("OP c set retry_max {}", rng.below(3)));
+    out.push("OP c load_metadata_all".into());
+    let rec = |rng: &mut Rng, names: &[(String, usize)], i: u32| -> String {
+        let (t, n) = rng.pick(names).clone();
+        let p: i64 = if rng.chance(1, 3) { rng.range(0, n as i64) } else { -1 };
+        let k = if rng.chance(1, 2) { "-".to_string() } else { hex(&rng.bytes(3)) };
+        format!(" {} {} {} {:08x}", h(&t), p, k, i)
+    };
+    match rng.below(3) {
+        0 => {
+            bump(d, "shape-producer");
+            let mut opts = String::new();
+            if rng.chance(1, 2) {
+                opts.push_str(&format!(" partitioner={}", rng.below(5)));
+            }
+            out.push(format!("OP producer_create client{}", opts));
+            let mut i = 0u32;
+            for _ in 0..(2 + rng.below(3)) {
+                if rng.chance(1, 3) {
+                    i += 1;
+                    out.push(format!("OP send{}", rec(rng, &names, i)));
+                } else {
+                    let mut line = String::from("OP send_all");
+                    for _ in 0..(1 + rng.below(4)) {
+                        i += 1;
+                        line.push_str(&rec(rng, &names, i));
+                    }
+                    out.push(line);
+                }
+            }
+        }
+        1 => {
+            bump(d, "shape-consumer");
+            let mut opts: Vec<String> = Vec::new();
+            for (t, n) in &names {
+                if rng.chance(2, 3) {
+                    if rng.chance(1, 2) || *n == 0 {
+                        opts.push(format!("topic={}", h(t)));
+                    } else {
+                        opts.push(format!("tp={}:{}", h(t), (0..*n).filter(|_| rng.chance(2, 3)).map(|p| p.to_string()).collect::<Vec<_>>().join(",")));
+                    }
+                }
+            }
+            if rng.chance(2, 3) {
+                opts.push(format!("group={}", h("grp")));
+                opts.push(format!("storage={}", rng.pick(&["zk", "kafka"])));
+            }
+            opts.push(format!("fallback={}", rng.pick(&["earliest", "latest"])));
+            rng.shuffle(&mut opts);
+            out.push(format!("OP consumer_create client {}", opts.join(" ")));
+            out.push("OP subscriptions".into());
+            for _ in 0..(2 + rng.below(3)) {
+                let (t, n) = rng.pick(&names).clone();
+                match rng.below(4) {
+                    0 | 1 => out.push("OP poll".into()),
+                    2 => out.push(format!("OP consume {} {} {}", h(&t), rng.range(0, n as i64), rng.below(3))),
+                    _ => out.push("OP commit".into()),
+                }
+            }
+        }
+        _ => {
+            bump(d, "shape-client");
+            out.push(format!("OP c set storage {}", rng.pick(&["zk", "kafka"])));
+            out.push("OP c topics".into());
+            let ts: Vec<String> = names.iter().map(|(t, _)| h(t)).collect();
+            for _ in 0..(2 + rng.below(4)) {
+                let (t, n) = rng.pick(&names).clone();
+                let p = rng.range(0, n as i64);
+                match rng.below(7) {
+                    0 => out.push(format!("OP c fetch_offsets {} {}", rng.pick(&[-1i64, -2]), ts.join(" "))),
+                    1 => out.push(format!("OP c list_offsets -1 {}", ts.join(" "))),
+                    2 => out.push(format!("OP c fetch_messages {} {} 0 -1", h(&t), p)),
+                    3 => out.push(format!("OP c produce 1 1 0 {} {} ~ aa", h(&t), p)),
+                    4 => out.push(format!("OP c commit_offsets {} {} {} 3", h("grp"), h(&t), p)),
+                    5 => out.push(format!("OP c fetch_group_topic_offset {} {}", h("grp"), h(&t))),
+                    _ => out.push(format!("OP c fetch_group_offsets {} {} {}", h("grp"), h(&t), p)),
+                }
+            }
+        }
+    }
+    out
+}
+
 pub fn gen_c13(rng: &mut Rng, d: &mut Dist, idx: u64) -> Vec<String> {
     const GROUP: u64 = 48;
+    if idx % 12 == 11 {
+        return gen_c13_shapes(rng, d);
+    }
     let group = idx / GROUP;
     let cached = C13_BASE.with(|c| c.borrow().as_ref().map(|(g, _, _)| *g) == Some(group));
     if !cached {
